@@ -261,5 +261,5 @@ func (x *Exec) scriptLIA(o *Oblig, hyps []*Term) string {
 	}
 	fmt.Fprintf(&s.body, "(assert %s)\n", s.tr(o.PC))
 	fmt.Fprintf(&s.body, "(assert %s)\n", s.tr(x.tb.Not(o.Goal)))
-	return s.decls.String() + s.body.String() + "(check-sat)\n"
+	return "(set-logic ALL)\n" + s.decls.String() + s.body.String() + "(check-sat)\n"
 }
